@@ -131,6 +131,246 @@ def inline(P, f, select, max_inlines=40, max_depth=3):
     return nf
 
 
+# ---- desugaring of Option / Result / bool combinators that take a closure -------------------------------------------------------
+COMB = re.compile(r"^core::option::Option::(map|map_or|map_or_else|and_then|filter|is_some_and|unwrap_or_else|ok_or_else|zip)$|"
+                  r"^core::result::Result::(map|map_err|and_then|unwrap_or_else)$|^core::bool::<impl bool>::then$")
+OPT_VARIANTS = [["0", "None"], ["1", "Some"]]
+RES_VARIANTS = [["0", "Ok"], ["1", "Err"]]
+
+
+def _inner_ty(ty, prefix):
+    return ty[len(prefix):-1] if ty.startswith(prefix) and ty.endswith(">") else "?"
+
+
+def desugar(P, f, max_sites=24):
+    """`opt.map_or(d, |x| ..)`, `opt.and_then(..)`, `res.map_err(..)`, `b.then(..)`, `a.zip(b)` ... rewritten into the match they stand for,
+    with the closure body spliced in (its captured variables bound to the closure value built at the call site).  What a rule then sees
+    is the same MIR rustc emits for the hand-written `match`, so guards, provenance and path facts apply to both spellings."""
+    raw = copy.deepcopy(f.raw)
+    body = raw["body"]
+    blocks = body["blocks"]
+    locals_ = body["locals"]
+    promoted = raw.setdefault("promoted", [])
+    done = []
+
+    def new_local(ty):
+        locals_.append({"ty": ty, "name": None, "mut": True})
+        return len(locals_) - 1
+
+    def new_block(stmts, term, tag):
+        blocks.append({"cleanup": False, "idom": None, "inl": tag, "stmts": stmts, "term": term})
+        return len(blocks) - 1
+
+    def assign(dst_place, rv, line):
+        return {"k": "assign", "pl": dst_place, "rv": rv, "line": line, "exp": False}
+
+    def pl(l, p=None):
+        return {"l": l, "p": p or []}
+
+    def mv(l, ty, p=None):
+        return {"k": "move", "pl": pl(l, p), "ty": ty}
+
+    def aggr(adt, variant, ops):
+        return {"k": "aggr", "ak": "adt", "adt": adt, "variant": variant, "fields": [str(i) for i in range(len(ops))], "ops": ops}
+
+    def splice(g, arg_ops, dest_place, cont, line, span):
+        """closure g with _1 = the closure value (borrowed as its body expects) and the further args bound; returns the entry block"""
+        loff, boff, poff = len(locals_), len(blocks), len(promoted)
+        locals_.extend(copy.deepcopy(g.locals))
+        promoted.extend(copy.deepcopy(g.promoted))
+        for gb in g.blocks:
+            nb = {"cleanup": gb["cleanup"], "idom": None, "inl": g.spath,
+                  "stmts": [_remap(s_, loff, boff, poff) for s_ in gb["stmts"]],
+                  "term": _shift_targets(_remap(gb["term"], loff, boff, poff), boff)}
+            if nb["term"]["k"] == "return":
+                nb["stmts"].append(assign(copy.deepcopy(dest_place), {"k": "use", "op": mv(loff, g.locals[0]["ty"])}, line))
+                nb["term"] = {"k": "goto", "target": cont, "span": span}
+            blocks.append(nb)
+        pre = []
+        for a_i, a in enumerate(arg_ops):
+            pre.append(assign(pl(loff + 1 + a_i), a, line))
+        return new_block(pre, {"k": "goto", "target": boff, "span": span}, g.spath)
+
+    def closure_of(op, t):
+        keys = [k for k in (t["func"].get("closure_args") or [])]
+        cands = []
+        for k in keys:
+            for cand in (k, "bin/" + k):
+                g = P.fns.get(cand)
+                if g is not None and g.kind == "Closure" and (cand.startswith("bin/") == (f.target == "bin")):
+                    cands.append(g)
+        ty = op.get("ty") or ""
+        m = re.match(r"^\{closure@([^:]+):(\d+):(\d+)", ty)
+        for g in cands:
+            sp = g.raw.get("span") or {}
+            if m and sp.get("file") == m.group(1) and sp.get("line") == int(m.group(2)) and sp.get("col") == int(m.group(3)):
+                return g
+        return cands[0] if len(cands) == 1 and not m else None
+
+    def env_rv(g, clo_op):
+        """how the closure body wants its first parameter: the closure value itself, or a (mutable) reference to it"""
+        t1 = g.locals[1]["ty"] if len(g.locals) > 1 else ""
+        if clo_op.get("k") not in ("copy", "move") or clo_op["pl"]["p"]:
+            return None
+        if t1.startswith("&mut "):
+            return {"k": "ref", "bk": "mut", "pl": pl(clo_op["pl"]["l"])}
+        if t1.startswith("&"):
+            return {"k": "ref", "bk": "shared", "pl": pl(clo_op["pl"]["l"])}
+        return {"k": "use", "op": copy.deepcopy(clo_op)}
+
+    i = 0
+    while i < len(blocks) and len(done) < max_sites:
+        b = blocks[i]
+        t = b["term"]
+        i += 1
+        if b.get("cleanup") or t["k"] != "call" or t.get("target") is None or t.get("dest") is None:
+            continue
+        fnm = short(t["func"].get("res_path") or t["func"].get("path") or "")
+        m = COMB.match(fnm)
+        if not m:
+            continue
+        which = fnm.split("::")[-1]
+        is_res = "result::Result" in fnm
+        is_bool = "impl bool" in fnm
+        args = t["args"]
+        recv = args[0]
+        if recv.get("k") not in ("copy", "move"):
+            continue
+        line, span, cont, dest = t["span"]["line"], t["span"], t["target"], t["dest"]
+        rty = recv.get("ty") or ""
+        stm = []
+        if recv["pl"]["p"]:
+            r0 = new_local(rty)
+            stm.append(assign(pl(r0), {"k": "use", "op": copy.deepcopy(recv)}, line))
+        else:
+            r0 = recv["pl"]["l"]
+        tag = "desugar:" + which
+        unreach = new_block([], {"k": "unreachable", "span": span}, tag)
+        dty = locals_[dest["l"]]["ty"] if not dest["p"] else "?"
+
+        def payload(variant, vi, adt, ty):
+            return mv(r0, ty, [{"d": variant, "vi": vi}, {"f": 0, "n": "0", "adt": adt, "ty": ty}])
+
+        def call_closure(clo_op, extra_ops, dst_place, then_block):
+            g = closure_of(clo_op, t)
+            if g is None or g.arg_count != 1 + len(extra_ops) or len(g.blocks) > 60:
+                return None
+            e = env_rv(g, clo_op)
+            if e is None:
+                return None
+            return splice(g, [e] + [{"k": "use", "op": o} if "k" in o and o["k"] in ("copy", "move", "const") else o for o in extra_ops],
+                          dst_place, then_block, line, span)
+
+        ok = False
+        if is_bool:
+            # b.then(f): true -> Some(f()), false -> None
+            inner = _inner_ty(dty, "core::option::Option<")
+            tmp = new_local(inner)
+            some_b = new_block([assign(copy.deepcopy(dest), aggr("core::option::Option", "Some", [mv(tmp, inner)]), line)], {"k": "goto", "target": cont, "span": span}, tag)
+            entry = call_closure(args[1], [], pl(tmp), some_b)
+            none_b = new_block([assign(copy.deepcopy(dest), aggr("core::option::Option", "None", []), line)], {"k": "goto", "target": cont, "span": span}, tag)
+            if entry is not None:
+                b["stmts"].extend(stm)
+                b["term"] = {"k": "switch", "discr": copy.deepcopy(recv), "targets": [["0", none_b]], "otherwise": entry, "span": span}
+                ok = True
+        else:
+            adt = "core::result::Result" if is_res else "core::option::Option"
+            variants = RES_VARIANTS if is_res else OPT_VARIANTS
+            good_v, bad_v = ("Ok", "Err") if is_res else ("Some", "None")
+            good_i, bad_i = (0, 1) if is_res else (1, 0)
+            if is_res:
+                inner_all = _inner_ty(rty, "core::result::Result<")
+                depth_, cut = 0, None
+                for ci, ch in enumerate(inner_all):
+                    if ch in "<([":
+                        depth_ += 1
+                    elif ch in ">)]":
+                        depth_ -= 1
+                    elif ch == "," and depth_ == 0:
+                        cut = ci
+                        break
+                tyT, tyE = (inner_all[:cut], inner_all[cut + 2:]) if cut else ("?", "?")
+            else:
+                tyT, tyE = _inner_ty(rty, "core::option::Option<"), None
+            goto_cont = {"k": "goto", "target": cont, "span": span}
+
+            def set_dest(rv):
+                return new_block([assign(copy.deepcopy(dest), rv, line)], dict(goto_cont), tag)
+            good_b = bad_b = None
+            pg = payload(good_v, good_i, adt, tyT)
+            if which in ("map",) and not is_res or (which == "map" and is_res):
+                inner = _inner_ty(dty, adt + "<").split(", ")[0] if is_res else _inner_ty(dty, adt + "<")
+                tmp = new_local(inner)
+                wrap = set_dest(aggr(adt, good_v, [mv(tmp, inner)]))
+                good_b = call_closure(args[1], [pg], pl(tmp), wrap)
+                bad_b = set_dest(aggr(adt, bad_v, [payload("Err", 1, adt, tyE)] if is_res else []))
+            elif which == "map_err":
+                inner = dty[dty.rfind(", ") + 2:-1] if ", " in dty else "?"
+                tmp = new_local(inner)
+                wrap = set_dest(aggr(adt, "Err", [mv(tmp, inner)]))
+                bad_b = call_closure(args[1], [payload("Err", 1, adt, tyE)], pl(tmp), wrap)
+                good_b = set_dest(aggr(adt, "Ok", [pg]))
+            elif which == "map_or":
+                good_b = call_closure(args[2], [pg], copy.deepcopy(dest), cont)
+                bad_b = set_dest({"k": "use", "op": copy.deepcopy(args[1])})
+            elif which == "map_or_else":
+                good_b = call_closure(args[2], [pg], copy.deepcopy(dest), cont)
+                bad_b = call_closure(args[1], [], copy.deepcopy(dest), cont)
+            elif which == "and_then":
+                good_b = call_closure(args[1], [pg], copy.deepcopy(dest), cont)
+                bad_b = set_dest(aggr(adt, bad_v, [payload("Err", 1, adt, tyE)] if is_res else []))
+            elif which == "is_some_and":
+                good_b = call_closure(args[1], [pg], copy.deepcopy(dest), cont)
+                bad_b = set_dest({"k": "use", "op": {"k": "const", "ty": "bool", "v": "false"}})
+            elif which == "unwrap_or_else":
+                good_b = set_dest({"k": "use", "op": pg})
+                bad_b = call_closure(args[1], [payload("Err", 1, adt, tyE)] if is_res else [], copy.deepcopy(dest), cont)
+            elif which == "ok_or_else":
+                inner = dty[dty.rfind(", ") + 2:-1] if ", " in dty else "?"
+                tmp = new_local(inner)
+                wrap = set_dest(aggr("core::result::Result", "Err", [mv(tmp, inner)]))
+                bad_b = call_closure(args[1], [], pl(tmp), wrap)
+                good_b = set_dest(aggr("core::result::Result", "Ok", [pg]))
+            elif which == "filter":
+                keep_b = set_dest(aggr(adt, "Some", [pg]))
+                drop_b = set_dest(aggr(adt, "None", []))
+                flag = new_local("bool")
+                test_b = new_block([], {"k": "switch", "discr": mv(flag, "bool"), "targets": [["0", drop_b]], "otherwise": keep_b, "span": span}, tag)
+                refl = new_local("&" + tyT)
+                g_entry = call_closure(args[1], [{"k": "ref", "bk": "shared", "pl": pl(r0, [{"d": "Some", "vi": 1}, {"f": 0, "n": "0", "adt": adt, "ty": tyT}])}],
+                                       pl(flag), test_b)
+                good_b = g_entry
+                bad_b = set_dest(aggr(adt, "None", []))
+            elif which == "zip":
+                o2 = args[1]
+                if o2.get("k") in ("copy", "move") and not o2["pl"]["p"]:
+                    ty2 = _inner_ty(o2.get("ty") or "", "core::option::Option<")
+                    tup = new_local("(%s, %s)" % (tyT, ty2))
+                    both = new_block([assign(pl(tup), {"k": "aggr", "ak": "tuple", "adt": None, "variant": None, "fields": ["0", "1"],
+                                                       "ops": [pg, mv(o2["pl"]["l"], ty2, [{"d": "Some", "vi": 1}, {"f": 0, "n": "0", "adt": adt, "ty": ty2}])]}, line),
+                                      assign(copy.deepcopy(dest), aggr(adt, "Some", [mv(tup, "(%s, %s)" % (tyT, ty2))]), line)], dict(goto_cont), tag)
+                    none2 = set_dest(aggr(adt, "None", []))
+                    d2 = new_local("isize")
+                    good_b = new_block([assign(pl(d2), {"k": "discr", "pl": pl(o2["pl"]["l"]), "ty": o2.get("ty"), "adt": adt, "variants": OPT_VARIANTS}, line)],
+                                       {"k": "switch", "discr": mv(d2, "isize"), "targets": [["0", none2], ["1", both]], "otherwise": unreach, "span": span}, tag)
+                    bad_b = set_dest(aggr(adt, "None", []))
+            if good_b is not None and bad_b is not None:
+                d = new_local("isize")
+                b["stmts"].extend(stm)
+                b["stmts"].append(assign(pl(d), {"k": "discr", "pl": pl(r0), "ty": rty, "adt": adt, "variants": variants}, line))
+                b["term"] = {"k": "switch", "discr": mv(d, "isize"), "targets": [[str(good_i), good_b], [str(bad_i), bad_b]], "otherwise": unreach, "span": span}
+                ok = True
+        if ok:
+            done.append(which)
+    if not done:
+        return f
+    nf = Fn(raw, f.target, P)
+    nf.inlined = list(getattr(f, "inlined", []) or [])
+    nf.desugared = done
+    nf.origin_fn = getattr(f, "origin_fn", f)
+    return nf
+
+
 class _ProbeCall:
     """minimal stand-in for prog.Call, enough for Prog.callee_keys"""
 
